@@ -98,6 +98,12 @@ fn prop(model: &Model, ix: &Index, tape: &[u32], st: &mut Stats) -> Result<(), S
         // rest of the message is executed or dropped makes no difference to the transport
         else if t.chance(1, 5) && !m.units.is_empty() {
             let first_ok = (0..m.units.len()).rev().take_while(|i| !m.units[*i].header.query).last();
+            // (not in front of a payload that contains a newline: how much of a faulty message with a
+            // newline inside a string or block is discarded is outside the statements, cf. C06)
+            let newline_behind = |from: usize| {
+                m.units[from..].iter().any(|u| u.args.iter().any(|a| a.payload().map(|p| p.contains(&b'\n')).unwrap_or(false)))
+            };
+            let first_ok = first_ok.filter(|lo| !newline_behind(*lo));
             if let Some(lo) = first_ok {
                 let pos = t.range(lo, m.units.len() - 1);
                 let mut u = vcore::ast::Unit::new(
